@@ -103,6 +103,16 @@ def run(tier, seed):
                         break
                 V.oblige(False)
                 site = "hypot@" + text
+                # a recorded finding is identified by its input, not by source text: if the recorded arguments make this very
+                # instruction wrap, the alarm is that finding
+                import re as _re
+                for (kp, kk, ks) in V.known:
+                    m_ = _re.fullmatch(r"hypot@input\((-?\d+),(-?\d+)\)", ks or "")
+                    if kp == "C14" and kk == "unsigned-wrap(%s)" % i.op and m_:
+                        cx.uwraps.clear()
+                        cx.run((int(m_.group(1)), int(m_.group(2))))
+                        if ln in cx.uwraps:
+                            site = ks
                 if wit:
                     args, out = wit
                     V.violation("unsigned-wrap(%s)" % i.op, site, "hypot(%s) [%s]: '%s' wraps modulo 2^64 in '%s': the sum of squares handed to sqrt is "
